@@ -27,7 +27,7 @@ type c19Scenario struct {
 	Stop       string   `json:"stop"`        // none | before_first_tick | in_retry | after_rounds
 	StopOffMs  int      `json:"stop_off_ms"` // in_retry: offset into the retry wait after the first failure
 	StopTwice  bool     `json:"stop_twice"`
-	FastTick   bool     `json:"fast_tick"` // 100 us interval: a tick is practically always pending when Stop is called
+	FastTick   bool     `json:"fast_tick"`         // 100 us interval: a tick is practically always pending when Stop is called
 	PingMs     int      `json:"ping_ms,omitempty"` // every scripted ping takes this long to answer (a ping that fails by timing out is slow)
 }
 
